@@ -224,3 +224,21 @@ PROPS["C12"] = dict(
                  "blas::real/imag are applied to mutable view types only (they do not instantiate for read-only view types such as the result of reversed())", "arrays with zero elements are skipped (the casts offset or dereference the null data pointer: null-root family)",
                  "element_transformed is given temporary functors (an lvalue functor deduces a reference type that transform_ptr cannot store)"],
 )
+
+PROPS["C11"] = dict(
+    targets=[dict(name="C11views", src="vp/props/C11.cpp", defs=["VP_C11_PROGRAM=1"], maxlen=13 + 4*10),
+             dict(name="C11iters", src="vp/props/C11.cpp", defs=["VP_C11_PROGRAM=2"], maxlen=13 + 4*10),
+             dict(name="C11containers", src="vp/props/C11m.cpp", maxlen=2 + 8*10)],
+    quick=dict(cases=1500, floor=12000),
+    thorough=dict(cases=30000, floor=200000, fuzz=dict(time=240)),
+    level="exploration",
+    level_text=("Differential/configuration testing: the generated programs of C01 (view algebra, all access paths), C02 (iterator, elements() and cursor laws) and the C04/C06 state machine "
+                "(value semantics, reextent, assign) are instantiated over two user-defined pointer types -- off_ptr (offset from an unrelated base, explicit construction only, no conversion to or "
+                "from T*, T& references) reached through an allocator and through array_ref, and chk_ptr (block id + offset with provenance: every dereference is checked against the liveness and "
+                "bounds of its block, arithmetic across blocks is recorded). The C01 program is also run over raw pointers on the same input and the transcripts of observable results (sizes, "
+                "relative positions, values) must be identical; all programs keep their model oracles; chk_ptr must record no violation."),
+    technique="differential testing of generated programs across pointer families (raw / offset / bounds-checking) with transcript equality and a checking pointer as oracle (rapidcheck + libFuzzer)",
+    rule=("case = pointer family bit + the generated case of the replayed program (C01: up to 10 view operations; C02: up to 8; containers: up to 10 history records over 4 arrays of int, D in 1..3); "
+          "non-trivial = as in the replayed program; distinct = hash of decoded case text"),
+    assumptions=COMMON_ASSUME + ["the C03/C05/C07 programs are not replayed over fancy pointers (their harnesses build operands over raw storage)", "allocators with fancy *references* (proxy references) are out of scope"],
+)
